@@ -1,8 +1,11 @@
-(* C15 -- CL03 proof of knowledge of a signature.  Proved: an accepted proof has its range proof on e made for the
-   commitment Ce of the sigma protocol and passes the five-equation check; completeness of the per-attribute two-secret
-   protocol.  Completeness of the whole proof for every hidden set and rejection of mismatching statements / edited
-   fields: correspondence + sweep (all subsets U for n <= 3 / 5). *)
-From ZK Require Import Cl ClArith ClSig ClMore.
+(* C15 -- CL03 proof of knowledge of a signature.  Proved: COMPLETENESS of the whole proof (spok_complete): for every
+   modulus, every number of attributes, every strictly increasing list of hidden positions, every signature the issuer's
+   check accepts and every sequence of logged draws whose random_bits values are not negative, whatever spok_gen returns
+   passes spok_verify (nine-response protocol: nisp5_complete; per-attribute opening proofs: nisp2sec_complete_u; all range
+   proofs: boudot_complete); an accepted proof has its range proof on e made for the commitment Ce of the sigma protocol
+   and passes the five-equation check.  Rejection of mismatching statements / edited fields: correspondence + sweep
+   (all subsets U for n <= 3 / 5). *)
+From ZK Require Import Cl ClArith ClSig ClMore ClGroup ClBoudot ModelLemmas ClSpok ClSpok2 ClSpok3.
 
 Theorem C15_spok_accepts_ties_Ce :
   forall CS BP p ck pk bases rmsgs U nsm,
@@ -29,3 +32,75 @@ Check (C15_nisp2sec_complete :
   nisp2sec_gen CS m c g h n ds = Ok (p, ds') ->
   nisp2sec_verify p c g h n = Ok true).
 Print Assumptions C15_nisp2sec_complete.
+
+(* completeness of the nine-response protocol for every attribute count and every hidden set *)
+Theorem C15_nisp5_complete :
+  forall CS sg ck pk bases msgs U ds p ds',
+  (0 < pk_N pk)%Z -> ck_N ck = pk_N pk ->
+  Forall (unit (pk_N pk)) bases -> Forall (unit (pk_N pk)) (ck_g ck) -> unit (pk_N pk) (ck_h ck) ->
+  unit (pk_N pk) (pk_b pk) -> unit (pk_N pk) (pk_c pk) -> (0 <= pk_c pk)%Z ->
+  (length msgs <= length bases)%nat -> (length msgs <= length (ck_g ck))%nat -> (1 <= length (ck_g ck))%nat ->
+  (0 <= s_s sg)%Z ->
+  verify_multiattr CS sg pk bases msgs = Ok true ->
+  strictly_sorted U -> Forall (fun j => (N.to_nat j < length msgs)%nat) U ->
+  Forall bits_ok ds ->
+  nisp5_gen CS sg ck pk bases msgs U ds = Ok (p, ds') ->
+  nisp5_verify p ck pk bases (map (at_ msgs) (revealed_of U 0 (length msgs))) U (length msgs) = Ok true.
+Proof. exact nisp5_complete. Qed.
+Check (C15_nisp5_complete :
+  forall CS sg ck pk bases msgs U ds p ds',
+  (0 < pk_N pk)%Z -> ck_N ck = pk_N pk ->
+  Forall (unit (pk_N pk)) bases -> Forall (unit (pk_N pk)) (ck_g ck) -> unit (pk_N pk) (ck_h ck) ->
+  unit (pk_N pk) (pk_b pk) -> unit (pk_N pk) (pk_c pk) -> (0 <= pk_c pk)%Z ->
+  (length msgs <= length bases)%nat -> (length msgs <= length (ck_g ck))%nat -> (1 <= length (ck_g ck))%nat ->
+  (0 <= s_s sg)%Z ->
+  verify_multiattr CS sg pk bases msgs = Ok true ->
+  strictly_sorted U -> Forall (fun j => (N.to_nat j < length msgs)%nat) U ->
+  Forall bits_ok ds ->
+  nisp5_gen CS sg ck pk bases msgs U ds = Ok (p, ds') ->
+  nisp5_verify p ck pk bases (map (at_ msgs) (revealed_of U 0 (length msgs))) U (length msgs) = Ok true).
+Print Assumptions C15_nisp5_complete.
+
+(* the opening proof of one attribute for invertible bases: no condition on the draws *)
+Theorem C15_nisp2sec_complete_units :
+  forall n, (0 < n)%Z -> forall CS g gi h hi, invert g n = Some gi -> invert h n = Some hi -> forall m c ds p ds',
+  c_value c = Cm n g gi h hi m (c_rand c) ->
+  nisp2sec_gen CS m c g h n ds = Ok (p, ds') ->
+  nisp2sec_verify p c g h n = Ok true.
+Proof. exact nisp2sec_complete_u. Qed.
+Check (C15_nisp2sec_complete_units :
+  forall n, (0 < n)%Z -> forall CS g gi h hi, invert g n = Some gi -> invert h n = Some hi -> forall m c ds p ds',
+  c_value c = Cm n g gi h hi m (c_rand c) ->
+  nisp2sec_gen CS m c g h n ds = Ok (p, ds') ->
+  nisp2sec_verify p c g h n = Ok true).
+Print Assumptions C15_nisp2sec_complete_units.
+
+(* completeness of the whole proof of knowledge *)
+Theorem C15_spok_complete :
+  forall CS BP sg ck pk bases msgs U ds p ds',
+  (0 <= b_t BP)%Z ->
+  (0 < pk_N pk)%Z -> ck_N ck = pk_N pk ->
+  Forall (unit (pk_N pk)) bases -> Forall (unit (pk_N pk)) (ck_g ck) -> unit (pk_N pk) (ck_h ck) ->
+  unit (pk_N pk) (pk_b pk) -> unit (pk_N pk) (pk_c pk) -> (0 <= pk_c pk)%Z ->
+  (length msgs <= length bases)%nat -> (length msgs <= length (ck_g ck))%nat -> (1 <= length (ck_g ck))%nat ->
+  (0 <= s_s sg)%Z ->
+  verify_multiattr CS sg pk bases msgs = Ok true ->
+  strictly_sorted U -> Forall (fun j => (N.to_nat j < length msgs)%nat) U ->
+  Forall bits_ok ds ->
+  spok_gen CS BP sg ck pk bases msgs U ds = Ok (p, ds') ->
+  spok_verify CS BP p ck pk bases (map (at_ msgs) (revealed_of U 0 (length msgs))) U (length msgs) = Ok true.
+Proof. exact spok_complete. Qed.
+Check (C15_spok_complete :
+  forall CS BP sg ck pk bases msgs U ds p ds',
+  (0 <= b_t BP)%Z ->
+  (0 < pk_N pk)%Z -> ck_N ck = pk_N pk ->
+  Forall (unit (pk_N pk)) bases -> Forall (unit (pk_N pk)) (ck_g ck) -> unit (pk_N pk) (ck_h ck) ->
+  unit (pk_N pk) (pk_b pk) -> unit (pk_N pk) (pk_c pk) -> (0 <= pk_c pk)%Z ->
+  (length msgs <= length bases)%nat -> (length msgs <= length (ck_g ck))%nat -> (1 <= length (ck_g ck))%nat ->
+  (0 <= s_s sg)%Z ->
+  verify_multiattr CS sg pk bases msgs = Ok true ->
+  strictly_sorted U -> Forall (fun j => (N.to_nat j < length msgs)%nat) U ->
+  Forall bits_ok ds ->
+  spok_gen CS BP sg ck pk bases msgs U ds = Ok (p, ds') ->
+  spok_verify CS BP p ck pk bases (map (at_ msgs) (revealed_of U 0 (length msgs))) U (length msgs) = Ok true).
+Print Assumptions C15_spok_complete.
